@@ -18,6 +18,7 @@ class Isa:
     def __init__(self):
         self.subs = []     # (name, [(pattern_text, prod)])
         self.rules = []    # dict(m=, ops=[...], prod=, cascade=bool)
+        self.cuts = None   # base partition of the rules into #ruledef blocks (list of cut points), None = one block
 
     def text(self, order=None, blocks=1, rng=None):
         """rule-block text; `order` permutes the (non-sub) rules, `blocks` splits them into several #ruledef blocks"""
@@ -28,6 +29,8 @@ class Isa:
         cuts = [0, len(idx)]
         if blocks > 1 and len(idx) > 1 and rng is not None:
             cuts = sorted(set([0, len(idx)] + [rng.range(1, len(idx) - 1) for _ in range(blocks - 1)]))
+        elif blocks == 1 and order is None and self.cuts:
+            cuts = self.cuts
         for a, b in zip(cuts, cuts[1:]):
             out.append('#ruledef\n{\n%s\n}\n' % '\n'.join('    ' + rule_text(self.rules[i]) for i in idx[a:b]))
         return ''.join(out)
@@ -86,13 +89,22 @@ def gen_isa(rng, size_static=True, collide=False):
             op = rng.below(255)
             isa.rules.append(dict(m=m, ops=[('expr', 'x', None, ('', ''))], prod='{ assert(x < 0x10), 0x%02x @ x`8 }' % op, cascade=True))
             isa.rules.append(dict(m=m, ops=[('expr', 'x', None, ('', ''))], prod='{ assert(x >= 0x10), 0x%02x @ x`16 }' % (op + 1), cascade=True))
-        elif k < 90 and not size_static:
+        elif k < 86 and not size_static:
+            # constant encodings of different sizes selected by assertions on the operand
+            t = rng.choice([3, 0x10, 0x80])
+            isa.rules.append(dict(m=m, ops=[('expr', 'x', None, ('', ''))], prod='{ assert(x < %d), 0x%02x }' % (t, rng.below(256)), cascade=True))
+            isa.rules.append(dict(m=m, ops=[('expr', 'x', None, ('', ''))], prod='{ assert(x >= %d), 0x%04x }' % (t, rng.below(65536)), cascade=True))
+        elif k < 92 and not size_static:
             # typed-width family
             op = rng.below(255)
             isa.rules.append(dict(m=m, ops=[('expr', 'x', 'u4', ('', ''))], prod='0x%x @ x' % (op & 15), cascade=True))
             isa.rules.append(dict(m=m, ops=[('expr', 'x', 'u12', ('', ''))], prod='0x%x @ x' % ((op + 1) & 15), cascade=True))
         else:
             isa.rules.append(dict(m=m, ops=[('reg', rng.choice(REGS)), ('expr', 'x', 'u8', ('', ''))], prod='%s @ x' % op8))
+    # base partition into 1-3 #ruledef blocks (families may straddle blocks, with equal rule indices in different blocks)
+    nb = rng.weighted([(1, 45), (2, 35), (3, 20)])
+    if nb > 1 and len(isa.rules) > 1:
+        isa.cuts = sorted(set([0, len(isa.rules)] + [rng.range(1, len(isa.rules) - 1) for _ in range(nb - 1)]))
     return isa
 
 
@@ -353,3 +365,47 @@ def canon_model(ans):
     if f[0] == 'OK':
         return ('OK', f[1], int(f[2]), f[3] if len(f) > 3 else '')
     return (f[0], None, None, None)
+
+
+def gen_shift_prog(rng):
+    """directed family for stale guesses: a label whose first-pass guess is larger than its final value, used by an
+    instruction whose encoding choice flips between the guess and the final value"""
+    isa = Isa()
+    t1 = rng.choice([8, 0x10, 0x40])
+    o1, o2 = rng.below(256), rng.below(256)
+    isa.rules.append(dict(m='big', ops=[('expr', 'v', None, ('', ''))], prod='{ assert(v < %d), 0x%02x @ v`8 }' % (t1, o1), cascade=True))
+    isa.rules.append(dict(m='big', ops=[('expr', 'v', None, ('', ''))], prod='{ assert(v >= %d), 0x%02x @ v`16 }' % (t1, o2), cascade=True))
+    k = rng.range(1, 3)
+    d = rng.range(0, 2)
+    lo, hi = 2 * k + d, 3 * k + d          # final value .. first-pass guess of the operand `back + d`
+    t2 = rng.range(lo + 1, hi)
+    fam = rng.below(4)
+    pn = rng.choice(['v', 'x', 'k0'])
+    if fam == 0:
+        isa.rules.append(dict(m='tst', ops=[('expr', pn, None, ('', ''))], prod='{ assert(%s < %d), 0x%02x }' % (pn, t2, rng.below(256)), cascade=True))
+        isa.rules.append(dict(m='tst', ops=[('expr', pn, None, ('', ''))], prod='{ assert(%s >= %d), 0x%04x }' % (pn, t2, rng.below(65536)), cascade=True))
+    elif fam == 1:
+        isa.rules.append(dict(m='tst', ops=[('expr', pn, None, ('', ''))], prod='{ assert(%s < %d), 0x%02x @ %s`8 }' % (pn, t2, rng.below(256), pn), cascade=True))
+        isa.rules.append(dict(m='tst', ops=[('expr', pn, None, ('', ''))], prod='{ assert(%s >= %d), 0x%02x @ %s`16 }' % (pn, t2, rng.below(256), pn), cascade=True))
+    elif fam == 2:
+        isa.rules.append(dict(m='tst', ops=[('expr', pn, None, ('', ''))], prod='0x%02x @ %s`8' % (rng.below(256), pn)))
+    else:
+        isa.rules.append(dict(m='tst', ops=[('expr', pn, None, ('', ''))], prod='(%s < %d) ? 0x%02x : 0x%04x' % (pn, t2, rng.below(256), rng.below(65536)), cascade=True))
+    if rng.chance(0.5) and len(isa.rules) > 2:
+        isa.cuts = [0, rng.range(1, len(isa.rules) - 1), len(isa.rules)]
+    p = Prog(isa)
+    big = [i for i, r in enumerate(isa.rules) if r['m'] == 'big']
+    tst = [i for i, r in enumerate(isa.rules) if r['m'] == 'tst']
+    for _ in range(k):
+        p.items.append(('instr', big[0], ['fwd']))
+    p.names.append('back'); p.items.append(('label', 'back'))
+    p.items.append(('instr', tst[0], ['back + %d' % d if d else 'back']))
+    if rng.chance(0.4):
+        p.items.append(('data', 8, ['back', 'fwd']))
+    p.names.append('fwd'); p.items.append(('label', 'fwd'))
+    if rng.chance(0.5):
+        # a constant named like the rule parameter (exercises the static-value analysis)
+        p.names.append(pn if pn == 'k0' else 'k0'); p.items.append(('const', p.names[-1], str(rng.below(200))))
+    if rng.chance(0.3):
+        p.items.append(('data', 16, ['fwd + back']))
+    return p
